@@ -64,7 +64,7 @@ func TestVerifC13CachePlacement(t *testing.T) {
 				return
 			}
 			servers = append(servers, s)
-			w := []int{0, 10, 50, 100, 100}[r.Intn(5)]
+			w := []int{0, 10, 50, 100, 100, -20}[r.Intn(6)] // negative weights are clamped to 'owns nothing' by the ring
 			if i == 0 {
 				w = 100
 			}
